@@ -179,6 +179,12 @@ def c09_staged_oracle(run, st):
     if pr["listing"] != hs:
         msgs.append("get_staged_object listing differs from the staged inventory on disk")
     alg = inv.get("digestAlgorithm", "sha512")
+    # a path can never be both a file and a directory
+    for p in pr["listing"]:
+        parts = p.split("/")
+        for k in range(1, len(parts)):
+            if "/".join(parts[:k]) in pr["listing"]:
+                msgs.append("staged view holds %s both as a file and as a directory (of %s)" % ("/".join(parts[:k]), p))
     for p, dg in pr["listing"].items():
         data = run.pool.get(dg)
         got = pr["cat"].get(p)
